@@ -152,29 +152,26 @@ theorem attrValRest_simA {F : Prop} {p : Nat} (t u : Tokenizer) (c : Core F p t 
         by_cases h4 : (u2.readByte.2 == 39 || u2.readByte.2 == 34) = true
         · sifA [h4] at e ⊢
           have het := rb.1.err
-          have cq : Core F p { t2.readByte.1 with pvS := t2.readByte.1.rawE } { u2.readByte.1 with pvS := u2.readByte.1.rawE } :=
-            Core.congr rb.1 (by simp [live]) (by simp [live])
-          have okq : Ok ({ u2.readByte.1 with pvS := u2.readByte.1.rawE } : Tokenizer) :=
-            ⟨a4.ok.le, a4.ok.panic, a4.ok.hang, a4.ok.utf8⟩
-          have fq1 := attrValQuotedGo_frame { t2.readByte.1 with pvS := t2.readByte.1.rawE } u2.readByte.2
-          have fq2 := attrValQuotedGo_frame { u2.readByte.1 with pvS := u2.readByte.1.rawE } u2.readByte.2
-          exact ⟨by rw [fq1.2.2.2.2.2.2, fq2.2.2.2.2.2.2]; exact rb.1.rawE, attrValQuotedGo_simA _ _ _ cq okq e⟩
+          have fq : ∀ x : Tokenizer, (attrValQuotedGo x u2.readByte.2).pvS = x.pvS :=
+            fun x => (attrValQuotedGo_frame x u2.readByte.2).2.2.2.2.2.2
+          refine ⟨?_, ?_⟩
+          · rw [fq, fq]; exact rb.1.rawE
+          · refine attrValQuotedGo_simA _ _ _ (Core.congr rb.1 ?_ ?_) ⟨a4.ok.le, a4.ok.panic, a4.ok.hang, a4.ok.utf8⟩ e <;>
+              simp [live, *]
         · sifA [h4] at e ⊢
           have hu0 : ¬ u2.readByte.1.rawE = 0 := by omega
           have ht0 : ¬ t2.readByte.1.rawE = 0 := by have := rb.1.rawE; omega
           sifA [hu0, ht0] at e ⊢
           have het := rb.1.err
-          have cq : Core F p { t2.readByte.1 with pvS := t2.readByte.1.rawE - 1 }
-              { u2.readByte.1 with pvS := u2.readByte.1.rawE - 1 } := Core.congr rb.1 (by simp [live]) (by simp [live])
-          have okq : Ok ({ u2.readByte.1 with pvS := u2.readByte.1.rawE - 1 } : Tokenizer) :=
-            ⟨a4.ok.le, a4.ok.panic, a4.ok.hang, a4.ok.utf8⟩
-          have fq1 := attrValUnquotedGo_frame { t2.readByte.1 with pvS := t2.readByte.1.rawE - 1 }
-          have fq2 := attrValUnquotedGo_frame { u2.readByte.1 with pvS := u2.readByte.1.rawE - 1 }
-          refine ⟨?_, attrValUnquotedGo_simA _ _ cq okq e⟩
-          rw [fq1.2.2.2.2.2.2, fq2.2.2.2.2.2.2]
-          have := rb.1.rawE
-          show t2.readByte.1.rawE - 1 = p + (u2.readByte.1.rawE - 1)
-          omega
+          have fq : ∀ x : Tokenizer, (attrValUnquotedGo x).pvS = x.pvS :=
+            fun x => (attrValUnquotedGo_frame x).2.2.2.2.2.2
+          refine ⟨?_, ?_⟩
+          · rw [fq, fq]
+            have := rb.1.rawE
+            show t2.readByte.1.rawE - 1 = p + (u2.readByte.1.rawE - 1)
+            omega
+          · refine attrValUnquotedGo_simA _ _ (Core.congr rb.1 ?_ ?_) ⟨a4.ok.le, a4.ok.panic, a4.ok.hang, a4.ok.utf8⟩ e <;>
+              simp [live, *]
 
 theorem attrValGo_simA {F : Prop} {p : Nat} (t u : Tokenizer) (c : Core F p t u) (ok : Ok u)
     (e : EO F (attrValGo u)) (hs : t.pvS = p + u.pvS) (hE : t.pvE = p + u.pvE) :
@@ -212,6 +209,163 @@ theorem readTagAttrVal_simA {F : Prop} {p : Nat} (t u : Tokenizer) (c : Core F p
     (readTagAttrVal t).pvS = p + (readTagAttrVal u).pvS ∧ (readTagAttrVal t).pvE = p + (readTagAttrVal u).pvE := by
   unfold readTagAttrVal at e ⊢
   exact attrValGo_simA _ _ (c.congr (by simp [live]) (by simp [live])) ⟨ok.le, ok.panic, ok.hang, ok.utf8⟩ e c.rawE c.rawE
+
+/-! ### one attribute, the loop, `read_tag` -/
+
+theorem readTagAttrKey_keep (t : Tokenizer) :
+    (readTagAttrKey t).attrs = t.attrs ∧ (readTagAttrKey t).nAttrRet = t.nAttrRet := by
+  unfold readTagAttrKey
+  have f := attrKeyGo_frame { t with pkS := t.rawE }
+  exact ⟨f.2.2.1, f.2.2.2.1⟩
+
+theorem readAttr_simA {F : Prop} {p : Nat} (t u : Tokenizer) (save : Bool) (c : Core F p t u) (ok : Ok u)
+    (e : EO F (readAttr u save)) (sv : Sav p t u) : Sav p (readAttr t save) (readAttr u save) := by
+  have a1 := readTagAttrKey_adv u ok
+  have a2 := readTagAttrVal_adv _ a1.ok
+  have okT := c.okT ok
+  have b1 := readTagAttrKey_adv t okT
+  have ev : EO F u.readTagAttrKey.readTagAttrVal := e.back (fun h => by
+    unfold readAttr; simp only; split <;> exact skipWhiteSpace_err _ h)
+  have ek : EO F u.readTagAttrKey := ev.back (readTagAttrVal_err _)
+  have k := readTagAttrKey_sim _ _ c ok ek
+  have kA := readTagAttrKey_simA _ _ c ok ek
+  have kt := readTagAttrKey_keep t
+  have ku := readTagAttrKey_keep u
+  have vA := readTagAttrVal_simA _ _ k a1.ok ev
+  have vt := (readTagAttrVal_spec t.readTagAttrKey b1.ok).1
+  have vu := (readTagAttrVal_spec u.readTagAttrKey a1.ok).1
+  simp only [valF, Prod.mk.injEq] at vt vu
+  unfold readAttr
+  simp only
+  generalize t.readTagAttrKey.readTagAttrVal = t2 at *
+  generalize u.readTagAttrKey.readTagAttrVal = u2 at *
+  have hat : t2.attrs = u2.attrs.map (AttrSpan.shift p) := by
+    rw [vt.2.2.1, kt.1, vu.2.2.1, ku.1]; exact sv.attrs
+  have hn : t2.nAttrRet = u2.nAttrRet := by rw [vt.2.2.2.1, kt.2, vu.2.2.2.1, ku.2]; exact sv.n
+  have hks : t2.pkS = p + u2.pkS := by rw [vt.2.2.2.2.1, vu.2.2.2.2.1]; exact kA.1
+  have hke : t2.pkE = p + u2.pkE := by rw [vt.2.2.2.2.2, vu.2.2.2.2.2]; exact kA.2
+  have hcond : (save && t2.pkS != t2.pkE) = (save && u2.pkS != u2.pkE) := by
+    rw [hks, hke]
+    cases save
+    · rfl
+    · simp only [Bool.true_and]
+      by_cases h : u2.pkS = u2.pkE
+      · rw [h]; simp
+      · have : ¬ p + u2.pkS = p + u2.pkE := by omega
+        simp [h, this]
+  rw [hcond]
+  by_cases hc : (save && u2.pkS != u2.pkE) = true
+  · rw [if_pos hc, if_pos hc]
+    have f1 := skipWhiteSpace_frame t2.pushPending
+    have f2 := skipWhiteSpace_frame u2.pushPending
+    refine ⟨?_, by rw [f1.2.2.2.1, f2.2.2.2.1]; exact hn⟩
+    rw [f1.2.2.1, f2.2.2.1]
+    show t2.attrs.push ⟨t2.pkS, t2.pkE, t2.pvS, t2.pvE⟩ = (u2.attrs.push ⟨u2.pkS, u2.pkE, u2.pvS, u2.pvE⟩).map (AttrSpan.shift p)
+    rw [Array.map_push, hat, hks, hke, vA.1, vA.2]
+    rfl
+  · rw [if_neg hc, if_neg hc]
+    have f1 := skipWhiteSpace_frame t2
+    have f2 := skipWhiteSpace_frame u2
+    exact ⟨by rw [f1.2.2.1, f2.2.2.1]; exact hat, by rw [f1.2.2.2.1, f2.2.2.2.1]; exact hn⟩
+
+theorem tagAttrsGo_simA {F : Prop} {p : Nat} (t u : Tokenizer) (save : Bool) (c : Core F p t u) (ok : Ok u)
+    (e : EO F (tagAttrsGo u save)) (sv : Sav p t u) : Sav p (tagAttrsGo t save) (tagAttrsGo u save) := by
+  fun_induction tagAttrsGo u save generalizing t
+  all_goals (try simp +zetaDelta only at *)
+  case case1 =>
+    have rb := readByte_sim c e
+    rw [tagAttrsGo]
+    sifA [rb.1.err, rb.2, *]
+    exact ⟨by simp [sv.attrs], by simp [sv.n]⟩
+  case case2 u _ hne _ herr1 =>
+    have herr : ¬ u.readByte.1.err = true := by intro h; simp [h] at hne
+    have a0 := read_unread_adv ok herr
+    have rb := readByte_sim c (e.back (fun h => readAttr_err _ _ (by simpa using h)))
+    have us := unread_sim 1 rb.1 (readByte_pos herr)
+    have ra := readAttr_sim _ _ save us a0.ok e
+    have raA := readAttr_simA _ _ save us a0.ok e ⟨by simp [sv.attrs], by simp [sv.n]⟩
+    rw [tagAttrsGo]
+    sifA [rb.1.err, rb.2, hne, ra.err, herr1]
+    exact raA
+  case case3 u _ hne _ herr1 hprog ih =>
+    have herr : ¬ u.readByte.1.err = true := by intro h; simp [h] at hne
+    have a0 := read_unread_adv ok herr
+    have a1 := readAttr_adv _ save a0.ok
+    have rb := readByte_sim c (e.back (fun h => tagAttrsGo_err _ _ (readAttr_err _ _ (by simpa using h))))
+    have us := unread_sim 1 rb.1 (readByte_pos herr)
+    have er : EO F ((u.readByte.1.unread 1).readAttr save) := e.back (tagAttrsGo_err _ _)
+    have ra := readAttr_sim _ _ save us a0.ok er
+    have raA := readAttr_simA _ _ save us a0.ok er ⟨by simp [sv.attrs], by simp [sv.n]⟩
+    have okT := c.okT ok
+    have herrT : ¬ t.readByte.1.err = true := by rw [rb.1.err]; exact herr
+    have b0 := read_unread_adv okT herrT
+    have b1 := readAttr_adv _ save b0.ok
+    have hbufT := (b0.trans b1).buf
+    have hbufU := (a0.trans a1).buf
+    have hleT := b1.ok.le
+    have hleU := a1.ok.le
+    have hprogT : ((t.readByte.1.unread 1).readAttr save).buf.size - ((t.readByte.1.unread 1).readAttr save).rawE <
+        t.buf.size - t.rawE := by
+      rw [hbufT] at hleT ⊢
+      rw [hbufU] at hleU hprog
+      have := ra.rawE
+      have := c.rawE
+      omega
+    rw [tagAttrsGo]
+    sifA [rb.1.err, rb.2, hne, ra.err, herr1, hprogT]
+    exact ih _ ra a1.ok e raA
+  case case4 u _ hne _ herr1 hnp =>
+    exfalso
+    have herr : ¬ u.readByte.1.err = true := by intro h; simp [h] at hne
+    have h62 : u.readByte.2 ≠ 62 := by intro h; simp [h] at hne
+    obtain ⟨g1, g2⟩ := get_of_readByte herr
+    obtain ⟨e1, e2, e3, e4⟩ := readByte_get_spec g1
+    have hu := unread1_spec u.readByte.1 (by omega)
+    have a0 := read_unread_adv ok herr
+    have hp := readAttr_progress (u.readByte.1.unread 1) u.readByte.2 save a0.ok (by rw [hu.2.1, e3, g2])
+      (by rw [hu.2.2, e4, hu.1, e2]; simpa using g1) h62
+    have a1 := readAttr_adv (u.readByte.1.unread 1) save a0.ok
+    have hbuf := (a0.trans a1).buf
+    have hle := a1.ok.le
+    rw [hbuf] at hnp hle
+    omega
+
+theorem tagNameGo_keep (t : Tokenizer) : (tagNameGo t).attrs = t.attrs ∧ (tagNameGo t).nAttrRet = t.nAttrRet := by
+  fun_induction tagNameGo t <;> simp_all +zetaDelta [setDataEndBack]
+  all_goals (try (split <;> simp_all))
+
+theorem readTag_simA {F : Prop} {p : Nat} (t u : Tokenizer) (save : Bool) (c : Core F p t u) (ok : Ok u)
+    (h1 : 1 ≤ u.rawE) (e : EO F (readTag u save)) : Sav p (readTag t save) (readTag u save) := by
+  have ok0 : Ok ({ u with attrs := #[], nAttrRet := 0 } : Tokenizer) := ⟨ok.le, ok.panic, ok.hang, ok.utf8⟩
+  have a1 := readTagName_adv _ ok0 h1
+  have a2 := skipWhiteSpace_adv _ a1.ok
+  have es : EO F ({ u with attrs := #[], nAttrRet := 0 } : Tokenizer).readTagName.skipWhiteSpace := e.back (fun h => by
+    unfold readTag; simp only; split <;> first | exact h | exact tagAttrsGo_err _ _ h)
+  have n := readTagName_sim { t with attrs := #[], nAttrRet := 0 } { u with attrs := #[], nAttrRet := 0 }
+    (c.congr (by simp [live]) (by simp [live])) ok0 h1 (es.back (skipWhiteSpace_err _))
+  have sk := skipWhiteSpace_sim _ _ n a1.ok es
+  -- both sides start from an empty attribute list
+  have keep : ∀ x : Tokenizer, 1 ≤ x.rawE →
+      (({ x with attrs := #[], nAttrRet := 0 } : Tokenizer).readTagName.skipWhiteSpace).attrs = #[] ∧
+      (({ x with attrs := #[], nAttrRet := 0 } : Tokenizer).readTagName.skipWhiteSpace).nAttrRet = 0 := by
+    intro x hx
+    have f := skipWhiteSpace_frame ({ x with attrs := #[], nAttrRet := 0 } : Tokenizer).readTagName
+    rw [f.2.2.1, f.2.2.2.1]
+    unfold readTagName
+    rw [if_neg (by show ¬ x.rawE = 0; omega)]
+    have g := tagNameGo_keep { ({ x with attrs := #[], nAttrRet := 0 } : Tokenizer) with dataS := x.rawE - 1 }
+    exact ⟨g.1, g.2⟩
+  have kt := keep t (by have := c.rawE; omega)
+  have ku := keep u h1
+  unfold readTag at e ⊢
+  simp only [sk.err] at e ⊢
+  generalize ({ t with attrs := #[], nAttrRet := 0 } : Tokenizer).readTagName.skipWhiteSpace = t2 at *
+  generalize ({ u with attrs := #[], nAttrRet := 0 } : Tokenizer).readTagName.skipWhiteSpace = u2 at *
+  have sv2 : Sav p t2 u2 := ⟨by rw [kt.1, ku.1]; simp, by rw [kt.2, ku.2]⟩
+  by_cases h2 : u2.err = true
+  · sifA [h2]; exact sv2
+  · sifA [h2] at e ⊢
+    exact tagAttrsGo_simA _ _ save sk a2.ok e sv2
 
 end Tokenizer
 end Rio.Html
